@@ -431,6 +431,7 @@ def str_to_dict(s, value=_sentinel):
     If a *value* is provided, *s* must be non-empty.
 
     If *s* is empty, an empty dictionary is returned.
+    If *s* is not a string, :exc:`.LenaTypeError` is raised.
 
     Examples:
 
@@ -439,6 +440,10 @@ def str_to_dict(s, value=_sentinel):
     >>> str_to_dict("output.changed", True)
     {'output': {'changed': True}}
     """
+    if not isinstance(s, str):
+        raise LenaTypeError(
+            "s must be a string, {} provided".format(s)
+        )
     if s == "":
         if value is _sentinel:
             return {}
@@ -479,7 +484,12 @@ def str_to_list(s):
     return a list with one empty string.
     Contrarily to :func:`str_to_dict`, this function allows
     an arbitrary number of dots in *s* (or none).
+    If *s* is not a string, :exc:`.LenaTypeError` is raised.
     """
+    if not isinstance(s, str):
+        raise LenaTypeError(
+            "s must be a string, {} provided".format(s)
+        )
     if s == "":
         return []
     # s can't be a list. This function is not used as a general
